@@ -139,9 +139,10 @@ Proof.
     simpl. split; [intro e; ends|].
     intros [[|]| |d|e]; simpl; try exact I;
       (split; [intro e'; ends | intros r; destruct r; exact I]).
-  - apply safe_store_at.
-  - unfold fa_fetch_chunk. apply safe_probe. intro f1. apply safe_probe.
-    intros [[q z]|]; [apply safe_read_handle | exact I].
+  - unfold fa_store_chunk. destruct (chunk_path c (flat c) k co) as [fp|]; [apply safe_store_at | exact I].
+  - unfold fa_fetch_chunk. destruct (chunk_path c true k co) as [pf|]; [|exact I].
+    apply safe_probe. intro f1. destruct (chunk_path c false k co) as [pd|]; [|exact I].
+    apply safe_probe. intros [[q z]|]; [apply safe_read_handle | exact I].
 Qed.
 
 (* (1) FileAccessor: whichever primitive call fails, with whichever errno, the
@@ -158,7 +159,7 @@ Theorem sh_fault_safe : forall b o, fault_safe B empty IOErr (sh_op_prog B plain
 Proof.
   intros b o. destruct o as [n buf mime ow | n | n | k co buf mime ow | k co]; simpl sh_op_prog;
     try exact I.
-  - unfold sh_store_file.
+  - unfold sh_store_file. destruct (sh_path b n) as [sp|]; [|exact I].
     assert (Hw : forall p, fault_safe B empty IOErr (sh_write B plain p buf)).
     { intro p. unfold sh_write. simpl. split; [intro e; ends|].
       intros [x| |d|e]; simpl; try exact I;
@@ -166,11 +167,12 @@ Proof.
         intros [x'| |d'|e']; simpl; (split; [intro e''; ends | intros r; destruct r; exact I]). }
     destruct ow; [apply Hw|]. simpl. split; [intro e; ends|].
     intros [[|]| |d|e]; simpl; try exact I; apply Hw.
-  - unfold sh_fetch_file. simpl. split; [intro e; ends|].
+  - unfold sh_fetch_file. destruct (sh_path b n) as [sp|]; [|exact I]. simpl. split; [intro e; ends|].
     intros [x| |d|e]; simpl; try exact I;
       (split; [intro e'; ends|]);
       intros [x'| |d'|e']; simpl; (split; [intro e''; ends | intros r; destruct r; exact I]).
-  - unfold sh_file_exists. simpl. split; [intro e; ends|]. intros r; destruct r; exact I.
+  - unfold sh_file_exists. destruct (sh_path b n) as [sp|]; [|exact I].
+    simpl. split; [intro e; ends|]. intros r; destruct r; exact I.
 Qed.
 
 Theorem sh_fault_to_error : forall b o k e t,
@@ -209,8 +211,9 @@ Proof.
   - unfold fa_file_exists. destruct (checked_path (base c) n) as [fp|]; [|exact I].
     simpl. split; [reflexivity|].
     intros [[|]| |d|e']; simpl; try exact I; (split; [reflexivity | intros r; destruct r; exact I]).
-  - unfold fa_fetch_chunk. apply ro_probe. intro f1. apply ro_probe.
-    intros [[q z]|]; [apply ro_read_handle | exact I].
+  - unfold fa_fetch_chunk. destruct (chunk_path c true k0 co) as [pf|]; [|exact I].
+    apply ro_probe. intro f1. destruct (chunk_path c false k0 co) as [pd|]; [|exact I].
+    apply ro_probe. intros [[q z]|]; [apply ro_read_handle | exact I].
 Qed.
 
 End ACC.
